@@ -74,11 +74,13 @@ OUTER:
 				atomic.StoreUint64(&s.stats.persistEpoch, ourSnapshot.epoch)
 			}
 			s.rootLock.Unlock()
+			verifPersisterGrab(s, ourSnapshot, len(ourPersisted), len(ourPersistedCallbacks))
 
 			if ourSnapshot != nil {
 				startTime := time.Now()
 
 				err = s.persistSnapshot(merges, persists, ourSnapshot)
+				verifPersisted(s, ourSnapshot, err, len(ourPersisted))
 				for _, ch := range ourPersisted {
 					if err != nil {
 						ch <- err
